@@ -322,8 +322,49 @@ def h_lazy(params, vals, ctx):
     return code[8 + fill] == 7 and code[0] == 1 and code[1] == 2
 
 
+def h_get_as_int(params, vals, ctx):
+    """get_as_int driven as a unit: for every integer value, accept iff it fits (signed magnitude < 2^n, or >= 0 when unsigned),
+    and then return value mod 2^n; the default is used only where one is given."""
+    from pdpy11 import reports
+    from pdpy11.metacommand_impl import get_as_int
+    from pdpy11.context import Context
+    from pdpy11.types import Number
+    from ..symasm import reset_module_state
+    reset_module_state()
+    v = vals["V"]
+    bitness, unsigned, default = params["bitness"], params["unsigned"], params["default"]
+    c = Context("u.mac", "12345")
+    e = c.save()
+    e.pos = 5
+    tok = Number(c, e, "12345", v, is_valid_label=False)
+    diags = []
+    outcome = None
+    try:
+        with reports.handle_reports(lambda pr, ident, *r: diags.append(ident)):
+            outcome = ("value", get_as_int({}, "test value", tok, tok, bitness=bitness, unsigned=unsigned, default=default))
+    except reports.UnrecoverableError:
+        outcome = ("error", None)
+    ctx.observe(outcome[0])
+    fits = True
+    if unsigned and v < 0:
+        fits = False
+    if bitness is not None and not (-2 ** bitness < v < 2 ** bitness):
+        fits = False
+    ctx.reach(fits)
+    if fits:
+        return outcome[0] == "value" and outcome[1] == (v if bitness is None else v % 2 ** bitness) and diags == []
+    # refused: always with exactly one value-out-of-bounds diagnostic; never a silently reduced value
+    return outcome[0] == "error" and diags == ["value-out-of-bounds"]
+
+
 def obligations(tier, seed):
     obs = []
+    for bitness in (3, 6, 8, 16, 32, None):
+        for unsigned in (False, True):
+            for default in (None, 0):
+                obs.append(Ob(oid=f"unit/get_as_int/{bitness}-{'u' if unsigned else 's'}-{'default' if default is not None else 'nodefault'}",
+                              harness="pdpverif.props.c06:h_get_as_int", params={"bitness": bitness, "unsigned": unsigned, "default": default},
+                              vars={"V": "int"}, timeout=120, pre="every integer"))
     for late in (False, True):
         obs.append(Ob(oid=f"lazy-values/{'late-link' if late else 'link-first'}", harness="pdpverif.props.c06:h_lazy", params={"late": late},
                       vars={"B": "int", "X": "int", "K": "int"}, timeout=300, per_path=90,
